@@ -9,9 +9,11 @@ QuickOptions == { O(TRUE, FALSE, "S256", FALSE, "echo"), O(FALSE, TRUE, "none", 
                   O(TRUE, TRUE, "none", TRUE, "echo"), O(FALSE, FALSE, "plain", FALSE, "echo"),
                   O(TRUE, FALSE, "none", FALSE, "other"), O(FALSE, FALSE, "S256", FALSE, "absent"),
                   O(TRUE, FALSE, "none", FALSE, "empty"), O(TRUE, FALSE, "none", FALSE, "raw"), O(FALSE, FALSE, "none", TRUE, "absent"),
-                  O(TRUE, FALSE, "none", FALSE, "replay"), O(FALSE, FALSE, "S256", FALSE, "replay"), O(FALSE, FALSE, "none", TRUE, "replay"),
+                  O(TRUE, FALSE, "none", FALSE, "replay"), O(FALSE, FALSE, "S256", FALSE, "replay"),
+                  \* absent_profile: the ID token carries no nonce, but the (unsigned) profile document volunteers the right one - still "no nonce"
+                  O(TRUE, FALSE, "none", FALSE, "absent_profile"), O(FALSE, FALSE, "S256", FALSE, "absent_profile"), O(FALSE, FALSE, "none", TRUE, "replay"),
                   O2(FALSE, FALSE, "S256", FALSE, "echo", "plain"), O2(TRUE, FALSE, "plain", FALSE, "echo", "s256"), O2(FALSE, TRUE, "S256", FALSE, "echo", "absent") }
 AllOptions == [perReq : BOOLEAN, encodeState : BOOLEAN, pkce : {"none", "S256", "plain"}, skipNonce : BOOLEAN,
-               idpNonce : {"echo", "other", "empty", "absent", "raw", "replay"}, advertise : {"both"}]
+               idpNonce : {"echo", "other", "empty", "absent", "raw", "replay", "absent_profile"}, advertise : {"both"}]
               \cup { O2(pr, FALSE, pk, FALSE, "echo", advm) : pr \in BOOLEAN, pk \in {"S256", "plain"}, advm \in {"plain", "s256", "absent"} }
 =============================================================================
